@@ -215,7 +215,7 @@ def check(tier):
     chk.obligations(THEOREMS)
     rnd = core.rng("C15")
     corpus = [["reset", "iface 1 - foo:10 - -".replace("foo", "a"), "iface 2 1 - - -", "iface 3 1 a:30 - -", "iface 4 2,3 - - -", "q 4", "get 4 a"]]
-    scripts = corpus + [gen_script(rnd, tier) for _ in range({"quick": 300, "thorough": 8000}[tier])]
+    scripts = corpus + [gen_script(rnd, tier) for _ in range({"quick": 900, "thorough": 8000}[tier])]
     lines = [l for s in scripts for l in s]
     impl, model, divs = runner.correspond(chk, "attrs", lines, label="attrs", normalise=lambda x: x.split(" || ")[0])
     fails = []
